@@ -313,7 +313,10 @@ impl<'de> serde::Deserializer<'de> for &mut ValueDeserializer<'de> {
         V: serde::de::Visitor<'de>,
     {
         if let Some(scalar) = self.input.as_scalar() {
-            if scalar.to_integer().is_some() {
+            if self.input.type_name() == "string" {
+                // A string stays a string, even when it spells a number
+                self.deserialize_str(visitor)
+            } else if scalar.to_integer().is_some() {
                 self.deserialize_i64(visitor)
             } else if scalar.to_float().is_some() {
                 self.deserialize_f64(visitor)
